@@ -11,6 +11,13 @@ import traceback
 from . import engine
 
 
+# modules of the tree under test that are loaded through the set-order / id() owning transform
+# (vmc.setorder, DESIGN.md 2.4) for a given property; must be installed before xsdata is imported
+SETORDER = {
+    "C04": {"prefixes": ["xsdata.formats.dataclass.parsers.dict", "xsdata.formats.dataclass.context", "xsdata.formats.dataclass.serializers.dict"]},
+}
+
+
 def main(argv=None) -> int:
     ap = argparse.ArgumentParser()
     ap.add_argument("prop")
@@ -20,6 +27,10 @@ def main(argv=None) -> int:
     prop = a.prop.upper()
     seed = int(os.environ.get("VERIF_SEED", "0") or 0)
     try:
+        pre = SETORDER.get(prop)
+        if pre:
+            from . import setorder
+            setorder.install(pre["prefixes"], pre.get("own_ids", False))
         mod = importlib.import_module(f"vmc.props.{prop.lower()}")
         if a.replay:
             return engine.replay_file(a.replay)
